@@ -115,6 +115,11 @@ class Contract:
         self.modifies_ = list(paths)
         return self
 
+    def modifies_anything(self):
+        """No frame is claimed (top-level loops that nobody calls)."""
+        self.modifies_ = None
+        return self
+
     def returns(self, T, fresh=False):
         """Result type; fresh=True: a newly allocated object."""
         self.returns_ = T
